@@ -190,7 +190,14 @@ fn name_strategy(class: u8) -> BoxedStrategy<String> {
 }
 
 fn hist_strategy() -> impl Strategy<Value = FHist> {
-    (0u8..3, prop::collection::vec(any::<(u8, u8, u8)>(), 3..30), prop::option::weighted(0.25, c17_soup()))
+    // raw directory regions: the simple soup below, C17's full slot soup (long runs with surrogate pairs, attr variants,
+    // arbitrary short slots) and C17's order/checksum patterns of 1..3 long-name slots
+    let region = prop_oneof![
+        2 => c17_soup(),
+        3 => c17::soup_strategy().prop_map(|c| c.slots),
+        2 => (1usize..=3, any::<u64>()).prop_map(|(n, idx)| c17::pattern_case(n, idx % (58u64.pow(n as u32) * 12), false).slots),
+    ];
+    (0u8..3, prop::collection::vec(any::<(u8, u8, u8)>(), 3..30), prop::option::weighted(0.3, region))
         .prop_flat_map(|(class, raw, soup)| (Just(class), Just(raw), Just(soup), prop::collection::vec(name_strategy(class), 5..=5)))
         .prop_map(|(class, raw, soup, names)| {
             let mut ops = Vec::new();
